@@ -103,6 +103,12 @@ TABLE = {
         note="Trusted: call counting by package directory; timing thresholds (5.5x for 4x input, 0.5 s for <= 64 units of an escape run). The exponential re-parse of a compound literal inside the type name of a compound literal is a known finding (F30) and excluded.",
         ref="DESIGN.md section 4, C16",
     ),
+    "C04": dict(
+        technique="history generation against a reference scope model: exhaustive enumeration of declaration-event sequences over a 24-event alphabet with probes after every event + Hypothesis-generated longer histories (shrinking the event list)",
+        text="All event sequences up to length 3 and half of length 4 (quick) / all up to length 4 and a seventh of length 5 (thorough) over typedef/object/function/enumerator/tag/member/prototype-parameter/label/function/block events for two names are rendered with four kinds of probe statements after every event for every name; a reference scope stack written from C99 6.2.1 predicts the reading (declaration/cast/type operand vs expression) of each probe. Complete inside the bound; events that trigger the listed scoping findings (F13-F18, F9a) are excluded and replayed separately.",
+        note="Trusted: the reference scope model in vlib/props/c04.py; histories it deems invalid C carry no claim.",
+        ref="DESIGN.md section 4, C04",
+    ),
 }
 
 NOT_YET = "check not built yet in this session (work in progress; see DESIGN.md section 9 for the order of work)"
